@@ -250,7 +250,7 @@ META = {
                   "likewise; remaps place shared vertices first for every triangle and point; support filter exact. Conjunction "
                   "C01_calderon_partial. The analytic statement (quadrature sums converge to integrals satisfying Calderon's "
                   "identities) is NOT proved.",
-    "level_note": "Trusted: Coq kernel + vm_compute + primitive int63 (through the Gauss-table sweep used for the rule lengths); "
+    "level_note": "Trusted: Coq kernel + vm_compute (no axioms under any theorem); "
                   "translators/tables.py; correspondence harness. Gap: potential theory and quadrature convergence; scatter into "
                   "the global matrix (C04); kernel-derivative relation (separate theorems). The search assembles V,K,K',W,M on small "
                   "closed meshes and requires both residuals to fall below 1e-6 as orders are raised - testing, reported as such.",
